@@ -35,7 +35,6 @@ def check(ctx):
     rpc = notif("RemoteProtocolsChange")
     lpc = notif("LocalProtocolsChange")
     ctx.floor("deliver", "RemoteProtocolsChange notifications", rpc, 2)
-    ctx.floor("deliver", "LocalProtocolsChange notifications", lpc, 1)
     hp = p.call_sites(r"ConnectionHandler::poll$")
     loop_or_ret = lib.bbs(hp) + p.return_blocks()
     ext = [s for s in p.call_sites(r"Extend>::extend$") if S.has_field(p.site_expr(s)[2][0], F_REMOTE)]
@@ -80,6 +79,8 @@ def check(ctx):
     # the same delivery written as an iterator chain: changes.into_iter().for_each(|c| handler.on_connection_event(LocalProtocolsChange(c)))
     fe = [s for s in p.call_sites(r"^std::iter::Iterator::for_each$") if any(S.call_at(p.site_expr(s)[2][0], f_.bb) is not None for f_ in ff)]
     ctx.floor("deliver", "changes iteration", nx + fe, 1)
+    lpc_cl = [x for s in fe for x in lib.calls_with_variant(S.closure_at(prog, p, s), r"ConnectionHandler::on_connection_event$", CE, "LocalProtocolsChange")]
+    ctx.floor("deliver", "LocalProtocolsChange notifications", lpc + lpc_cl, 1)
     for s in nx:
         some = [t for _, t in lib.switch_edges_on_site(p, s, {"Some"})]
         got = lib.count_range(p, some, [s.bb], lib.bbs(lpc))
@@ -244,3 +245,37 @@ def check(ctx):
             continue        # an empty result built after the removal pass is not a shortcut
         ctx.guarded("compute", "from_full_sets: shortcut requires count == number of entries", s, count_eq, "new_protocol_count == existing_protocols.len()")
         ctx.guarded("compute", "from_full_sets: shortcut requires that no new name was recorded", s, none_new, "buffer.is_empty()")
+    # ---- the counter compared in the shortcut counts exactly the advertised names that were visited/inserted: in every iteration
+    # of the loop over the advertised names it is incremented exactly once and the map entry is visited exactly once
+    cnts = set()
+    for bi, c_, _ in S.switch_blocks(f, lambda c, r: count_eq(c, r, "true") or count_eq(c, r, "false")):
+        c0_, _ = S.unnot(c_, "true")
+        cnts |= {x[1] for x in (c0_[2], c0_[3]) if x[0] == "local"}
+    ctx.ob("compute", "floor:from_full_sets advertised-name counter", len(cnts) == 1, nontrivial=False, msg="locals compared with existing_protocols.len(): %d" % len(cnts))
+    i_new = [i for i in range(1, f.argc + 1) if i not in (i_map, i_buf)]
+    loops = [s for s in f.call_sites(r"Iterator>::next$|Iterator::next$")
+             if i_new and any("into_iter(p%d)" % i_new[0] in render(x) for x in [f.site_expr(s)] + [d for l in S.locals_in(f.site_expr(s)) for _, d in S.defs_exprs(f, l)])]
+    ctx.floor("compute", "from_full_sets loop over the advertised names", loops, 1, exact=True)
+    if len(cnts) == 1 and len(loops) == 1:
+        L = next(iter(cnts))
+        lp = loops[0]
+        some = S.some_targets(f, lp)
+        reg = S.loop_region(f, lp.bb, some)
+        incs, other_w = [], []
+        for w, x in S.defs_exprs(f, L):
+            parts = S.add_leaves(x)
+            is_inc = len(parts) == 2 and any(y[0] == "local" and y[1] == L for y in parts) and any(y[0] == "const" and y[1] == 1 for y in parts)
+            if w.bb in reg:
+                (incs if is_inc else other_w).append(w)
+            else:
+                ctx.ob("compute", "from_full_sets: the counter starts at zero", x[0] == "const" and x[1] == 0, w.loc(), "counter initialised with %s" % render(x))
+        ctx.ob("compute", "from_full_sets: the counter only counts up by one", not other_w and bool(incs), incs[0].loc() if incs else "", "%d increment(s), %d other write(s) inside the loop" % (len(incs), len(other_w)))
+        got_i = lib.count_range(f, some, [lp.bb], lib.bbs(incs))
+        got_e = lib.count_range(f, some, [lp.bb], [x.bb for x in ent if x.bb in reg])
+        ctx.ob("compute", "from_full_sets: every advertised name is counted exactly once", got_i == (1, 1), lp.loc(), "counter increments per advertised name: %s" % (got_i,))
+        ctx.ob("compute", "from_full_sets: every advertised name is visited/inserted exactly once", got_e == (1, 1), lp.loc(), "existing_protocols.entry(..) per advertised name: %s" % (got_e,))
+        # no way out of the loop other than exhaustion of the advertised names
+        none_e = lib.switch_edges_on_site(f, lp, {"None"})
+        after_loop = f.reachable([t_ for _, t_ in none_e])
+        leak = sorted(reg & after_loop)
+        ctx.ob("compute", "from_full_sets: the loop over the advertised names is left only when they are exhausted", not leak, lp.loc(), "code after the loop that is reachable from the loop body without passing the loop head: %d block(s)" % len(leak))
